@@ -15,6 +15,39 @@ try:
 except Exception as _ex:  # the generator itself broke: same fallback as an unparseable source
     R3_STATUS = {"DivDispatch": "unparsed generator-failed: %s" % str(_ex)[:200]}
 
+# round 4: coq/gen/DivKernelsGen.v (the loop kernels of div/mod.rs, div/simple.rs, divide_conquer.rs as Gallina folds, through the
+# loop translator of C01 used as a library), coq/gen/DivReprGen.v (helpers of div_ops.rs::repr) and coq/gen/DivAssertsGen.v (every
+# debug_assert*! of div / div_const / div_ops / mul with a side-effect flag)
+try:
+    import translate_c02_r4
+    R4_STATUS = translate_c02_r4.generate(core.REPO, os.path.join(core.COQ, "gen"))
+    R4_DETAIL = {"functions": dict(translate_c02_r4.LAST_RESULTS), "asserts": dict(translate_c02_r4.LAST_ASSERTS)}
+except Exception as _ex:
+    R4_STATUS = {"DivKernels": "unparsed generator-failed: %s" % str(_ex)[:200]}
+    R4_DETAIL = {}
+
+
+
+def _build_model_first():
+    """the files the extraction imports are definitions only; they are built BEFORE the proof phase so that a proof broken by a
+    changed generated fragment cannot keep the oracle from being built (make stops at the first error): the run then still finds
+    the concrete failing input"""
+    try:
+        import re as _re
+        txt = open(os.path.join(core.COQ, "extract", "Extract_c02.v")).read()
+        targets = []
+        for lib, names in _re.findall(r"From (Dashu|DashuGen) Require Import ([^.]*(?:\.[A-Za-z][^.]*)*)\.\s", txt):
+            for n in names.split():
+                targets.append(("theories/" + n.replace(".", "/") if lib == "Dashu" else "gen/" + n) + ".vo")
+        if targets:
+            core.coq_build(targets)
+    except Exception:
+        pass
+
+
+if "--no-coq" not in sys.argv:
+    _build_model_first()
+
 # a run against a scratch checkout (VERIF_REPO) must not leave that checkout's fragment in a shared tree
 if os.path.realpath(core.REPO) != os.path.realpath("/repo") and os.path.realpath(core.COQ) == os.path.realpath(os.path.join(core.ROOT, "coq")):
     import atexit
@@ -22,6 +55,10 @@ if os.path.realpath(core.REPO) != os.path.realpath("/repo") and os.path.realpath
     def _restore_r3():
         try:
             translate_c02_r3.generate("/repo", os.path.join(core.COQ, "gen"))
+        except Exception:
+            pass
+        try:
+            translate_c02_r4.generate("/repo", os.path.join(core.COQ, "gen"))
         except Exception:
             pass
 
@@ -34,17 +71,97 @@ R3_TIED_BY = {
     "ReprArms": "C02_typed_div_rem, C02_typed_div, C02_typed_rem",
     "PrimRows": "C02_prim_rows",
 }
+R4_TIED_BY = {
+    "DivKernels": "C02_gen_fast_div_by_word .. C02_gen_dc_tail (15 theorems: generated = hand model for every w), C02_gen_small_divisor_correct",
+    "DivRepr": "C02_gen_div_rem_in_lhs, C02_gen_div_rem_large, C02_gen_div_large, C02_gen_rem_large, C02_gen_large_divisor_correct",
+    "DivAsserts": "C02_debug_asserts_keep_side_effects",
+}
+
+# a replay of a failure found in the release or the 32-bit build must run that build (tools/check.py always asks for "default"):
+# the recorded config is substituted, and the oracle is told the word size
+if "--replay" in sys.argv:
+    try:
+        import json as _json
+        _rp = _json.load(open(sys.argv[sys.argv.index("--replay") + 1]))
+        _cfg = _rp.get("config")
+        if _cfg in ("release", "w32"):
+            _orig_build = core.harness_build
+            core.harness_build = lambda b, c="default", **k: _orig_build(b, _cfg, **k)
+            if _cfg == "w32":
+                os.environ["C02_W"] = "32"
+    except Exception:
+        pass
+
+
+EXTRA_CONFIGS = [("release", 64), ("w32", 32)]
+if os.environ.get("C02_EXTRA_CONFIGS") is not None:       # sensitivity experiments: a subset ("" = none)
+    EXTRA_CONFIGS = [(c, 32 if c.startswith("w32") else 64) for c in os.environ["C02_EXTRA_CONFIGS"].split(",") if c]
+
+
+def _verdict(line):
+    t = (line or "noverdict").split()
+    return (t[0] if t else "noverdict"), dict(x.split("=", 1) for x in t[1:] if "=" in x)
+
+
+def _other_build(cfg, wbits, cases, exes, oracle, hist, failures, nontrivial):
+    """the reduced case list on another build of the library: release (debug assertions and overflow checks OFF - the profile
+    users run) and force_bits="32" (Word = u32; the oracle runs every word-level model at w = 32)"""
+    exe, out = core.harness_build(HARNESS_BIN, cfg)
+    if exe is None:
+        failures.append({"kind": "harness build failed", "config": cfg, "log": out[-1500:]})
+        return 0
+    answers = core.run_sharded(exe, cases, case_timeout=CASE_TIMEOUT["quick"])
+    verdicts = core.run_sharded(oracle, [(i, "%s => %s" % (t, answers.get(i, "noanswer"))) for i, t in cases],
+                                case_timeout=120, env={"C02_W": str(wbits)})
+    base = core.run_sharded(exes["default"], cases, case_timeout=CASE_TIMEOUT["quick"]) if (wbits == 64 and "default" in exes) else None
+    bad = {}
+    for i, t in cases:
+        v, kv = _verdict(verdicts.get(i))
+        op = t.split(" ", 1)[0]
+        hist["BUILD:%s:op:%s" % (cfg, op.split(".")[0])] = hist.get("BUILD:%s:op:%s" % (cfg, op.split(".")[0]), 0) + 1
+        if "asis" in kv:
+            hist["BUILD:%s:asis:%s" % (cfg, kv["asis"])] = hist.get("BUILD:%s:asis:%s" % (cfg, kv["asis"]), 0) + 1
+        if kv.get("nt") == "1":
+            nontrivial.append(cfg + " " + t)
+        why = None
+        if v != "pass":
+            why = "oracle: " + (verdicts.get(i) or "noverdict")[:300]
+        elif kv.get("asis") == "diff":
+            why = "model fidelity: the as-is model (word size %d) differs from the %s build" % (wbits, cfg)
+        elif base is not None and base.get(i) != answers.get(i):
+            why = "the %s build answers differently from the verif build: %s" % (cfg, (base.get(i) or "")[:200])
+        if why and op not in bad:
+            bad[op] = {"kind": "other-build", "config": cfg, "case": t, "impl": (answers.get(i) or "noanswer")[:2000], "why": why,
+                       "replay": "./check C02 --replay <this file>   (the plug-in substitutes the recorded config for the harness build)"}
+        if why:
+            hist["BUILD:%s:violations" % cfg] = hist.get("BUILD:%s:violations" % cfg, 0) + 1
+    failures.extend(bad.values())
+    return len(cases)
 
 
 def extra_phase(tier, seed, exes, oracle):
     hist = {}
     for name, st in R3_STATUS.items():
         hist["translator_c02_r3:%s:%s" % (name, st.split(" ", 1)[0])] = 1
+    for name, st in R4_STATUS.items():
+        hist["TRANSLATOR_C02_R4:%s:%s" % (name, st.split(" ", 1)[0])] = 1
     allok = all(st == "ok" for st in R3_STATUS.values())
     sample = {"fragment": "coq/gen/DivDispatch.v (tools/translate_c02_r3.py from integer/src/div/*.rs, mul/*.rs, div_ops.rs, helper_macros.rs)",
               "status": dict(R3_STATUS),
               "tied_by": R3_TIED_BY if allok else "fragments not `ok` keep their last good copy (marked STALE) and are tied by the correspondence run only"}
-    return {"evaluations": 0, "hist": hist, "nontrivial": [], "samples": [sample], "failures": []}
+    ok4 = all(st == "ok" for st in R4_STATUS.values())
+    sample4 = {"fragment": "coq/gen/DivKernelsGen.v, DivReprGen.v, DivAssertsGen.v (tools/translate_c02_r4.py over tools/translate_c01_r4.py, from "
+                           "integer/src/div/{mod,simple,divide_conquer}.rs, div_ops.rs, div_const.rs, mul/*.rs, helper_macros.rs)",
+               "status": dict(R4_STATUS), "detail": R4_DETAIL,
+               "tied_by": R4_TIED_BY if ok4 else "functions reported `unparsed` keep their last good copy (marked STALE) and are tied by the correspondence run only"}
+    failures, nontrivial, evaluations = [], [], 0
+    if oracle and exes:
+        rng = core.Rng(seed * 7919 + 17)
+        n = {"quick": 1500, "thorough": 12000}.get(tier, 1500)
+        for cfg, wbits in EXTRA_CONFIGS:
+            cases = list(enumerate(other_build_cases(rng.fork(cfg), tier, n, wbits)))
+            evaluations += _other_build(cfg, wbits, cases, exes, oracle, hist, failures, nontrivial)
+    return {"evaluations": evaluations, "hist": hist, "nontrivial": nontrivial, "samples": [sample4, sample], "failures": failures}
 
 ID = "C02"
 READY = True
@@ -135,15 +252,15 @@ def divisor(rng, nb):
     k = rng.below(14)
     if nb == 1:
         if k < 2:
-            return rng.choice([1, 2, 3, B - 1, B - 2, 1 << 63, (1 << 63) + 1, (1 << 32), (1 << 32) - 1, 10])
+            return rng.choice([1, 2, 3, B - 1, B - 2, 1 << (W - 1), (1 << (W - 1)) + 1, (1 << (W // 2)), (1 << (W // 2)) - 1, 10])
         if k < 5:
-            return 1 << rng.below(64)
+            return 1 << rng.below(W)
     if nb == 2:
         if k < 4:
-            return 1 << rng.range(64, 127)  # power-of-two double word (shift shortcut)
+            return 1 << rng.range(W, 2 * W - 1)  # power-of-two double word (shift shortcut)
         if k < 6:
-            return rng.choice([B, B + 1, (B << 63), B * B - 1, (B - 1) << 64, (1 << 127) + 1, (1 << rng.range(64, 127)) + rng.choice([1, -1])])
-    top = rng.choice([1, 1, 2, 3, 1 << 63, (1 << 63) + 1, B - 1, B - 2, (1 << 63) - 1, rng.bits(64) | 1, rng.bits(rng.range(1, 64)) | 1])
+            return rng.choice([B, B + 1, (B << (W - 1)), B * B - 1, (B - 1) << W, (1 << (2 * W - 1)) + 1, (1 << rng.range(W, 2 * W - 1)) + rng.choice([1, -1])])
+    top = rng.choice([1, 1, 2, 3, 1 << (W - 1), (1 << (W - 1)) + 1, B - 1, B - 2, (1 << (W - 1)) - 1, rng.bits(W) | 1, rng.bits(rng.range(1, W)) | 1])
     if top >= B or top == 0:
         top = 1
     low_bits = nbits - W
@@ -184,7 +301,7 @@ def quotient(rng, nq):
         for i in range(nq):
             v |= rng.choice([0, B - 1, B - 2, 1]) << (i * W)
         return v | (1 << (nbits - W))
-    return gen_mag(rng, nq)
+    return gen_mag(rng, nq, W)
 
 
 NB_CLASSES = [1, 1, 2, 2, 2, 3, 3, 4, 5, 8, 16, 31, 32, 33, 34, 40, 64, 65, 66]
@@ -203,14 +320,14 @@ def pair(rng, tier, nb=None, nq=None):
     b = divisor(rng, nb)
     if nq < 0:
         # dividend shorter than (or equal length but smaller than) the divisor
-        a = gen_mag(rng, rng.range(0, nb)) if rng.chance(2, 3) else max(0, b - rng.choice([1, 2, B]))
+        a = gen_mag(rng, rng.range(0, nb), W) if rng.chance(2, 3) else max(0, b - rng.choice([1, 2, B]))
         return a, b
     k = rng.below(10)
     if k < 4:
-        a = gen_mag(rng, nb + nq)
+        a = gen_mag(rng, nb + nq, W)
     else:
         q = quotient(rng, nq) if nq > 0 else rng.choice([0, 1, 1, 2])
-        r = rng.choice([0, 0, 1, b - 1, b - 1, b - 2, rng.bits(max(1, b.bit_length() - 1)) % b, b >> 1, rng.bits(64) % b])
+        r = rng.choice([0, 0, 1, b - 1, b - 1, b - 2, rng.bits(max(1, b.bit_length() - 1)) % b, b >> 1, rng.bits(W) % b])
         a = q * b + r
         if k == 9:
             a += rng.choice([b, -1, 1]) if a > 0 else 0
@@ -222,19 +339,25 @@ def const_pair(rng, tier):
     if rng.chance(1, 3):
         b = divisor(rng, rng.choice([1, 1, 2]))
         if rng.chance(1, 2):
-            b |= 1 << (rng.choice([64, 128]) - 1) if b.bit_length() <= 64 else 1 << 127  # stored shift = 0
-            if b >= 1 << 64 and b.bit_length() != 128:
-                b |= 1 << 127
+            b |= 1 << (rng.choice([W, 2 * W]) - 1) if b.bit_length() <= W else 1 << (2 * W - 1)  # stored shift = 0
+            if b >= 1 << W and b.bit_length() != 2 * W:
+                b |= 1 << (2 * W - 1)
         k = rng.below(6)
         if k == 0:
-            a = (1 << 128) - 1
+            a = (1 << (2 * W)) - 1
         elif k == 1:
-            a = (rng.choice([b, b - 1, B - 1, b + 1]) % B) << 64 | rng.bits(64)  # high word around the divisor
+            a = (rng.choice([b, b - 1, B - 1, b + 1]) % B) << W | rng.bits(W)  # high word around the divisor
         elif k == 2:
-            a = b * rng.bits(rng.range(1, 64)) + rng.choice([0, 1, b - 1])
+            a = b * rng.bits(rng.range(1, W)) + rng.choice([0, 1, b - 1])
         else:
-            a = gen_mag(rng, rng.choice([0, 1, 2, 2]))
-        return a & ((1 << 128) - 1), b
+            a = gen_mag(rng, rng.choice([0, 1, 2, 2]), W)
+        return a & ((1 << (2 * W)) - 1), b
+    if rng.chance(1, 4):
+        # multi-word ConstDivisor whose top word has leading zeros (stored shift != 0): the un-normalising shift of the remainder
+        nb = rng.choice([3, 3, 4, 5, 8, 33, 34])
+        b = (rng.choice([1, 2, 3, 5, rng.bits(rng.range(1, W - 1)) | 1]) << ((nb - 1) * W)) | rng.bits((nb - 1) * W)
+        a = b * quotient(rng, rng.choice([1, 2, 3, 34])) + rng.choice([1, b - 1, b >> 1, rng.bits(W) % b, 1 << ((nb - 1) * W)])
+        return a, b
     return pair(rng, tier)
 
 
@@ -352,10 +475,10 @@ def gen_cases(rng, tier, n):
             a, b = const_pair(rng, tier)
             out.append("ic.%s %s %s" % (rng.choice(PLAIN), hx(a if rng.chance(1, 2) else -a), hx(b)))
         elif k < 74:
-            out.append("c.value %s" % hx(divisor(rng, rng.choice([0, 1, 1, 2, 2, 3, 5, 33]))))
+            out.append("c.%s %s" % (rng.choice(["value", "fields", "fields"]), hx(divisor(rng, rng.choice([0, 1, 1, 2, 2, 3, 5, 33])))))
         elif k < 78:
             # division by zero, every family
-            a = gen_mag(rng, rng.choice([0, 1, 2, 3, 5, 40]))
+            a = gen_mag(rng, rng.choice([0, 1, 2, 3, 5, 40]), W)
             r = rng.below(8)
             if r == 0:
                 out.append("i.%s %s 0" % (rng.choice(SAME_FORMS), hx(a if rng.chance(1, 2) else -a)))
@@ -379,7 +502,7 @@ def gen_cases(rng, tier, n):
             # primitives
             r = rng.below(3)
             form = rng.choice(PLAIN + ["pdiv"])
-            big = gen_mag(rng, rng.choice([0, 1, 1, 2, 2, 3, 4, 33]))
+            big = gen_mag(rng, rng.choice([0, 1, 1, 2, 2, 3, 4, 33]), W)
             if r == 0:
                 ty, bits = rng.choice(PRIMS_U)
                 p = prim_value(rng, bits, False)
@@ -406,3 +529,64 @@ def gen_cases(rng, tier, n):
         else:
             out.append(kernel_case(rng, tier))
     return out
+
+
+def other_build_cases(rng, tier, n, wbits):
+    """the reduced list for the release and the 32-bit build: every division op and call form (u / i / ui / iu / uc / ic with every
+    trait form, c.value, c.fields, mc, the kernel hook, a few scratch cases), sizes counted in words of THAT build (thresholds 32/33
+    words of 32 bits), division by zero where the panic does not come from a debug assertion; primitives only in the release build"""
+    global W, B
+    saved = (W, B)
+    W, B = wbits, 1 << wbits
+    try:
+        out = []
+        if wbits == 64:
+            cp = os.path.join(core.ROOT, "corpus", "C02.txt")
+            out += [l.strip() for l in open(cp) if l.strip() and not l.startswith("#")]
+        forms = list(SAME_FORMS)
+        k = 0
+        while len(out) < n:
+            k += 1
+            r = rng.below(100)
+            if r < 22:
+                a, b = signs(rng, *pair(rng, tier))
+                out.append("i.%s %s %s" % (forms[k % len(forms)], hx(a), hx(b)))
+            elif r < 34:
+                a, b = pair(rng, tier)
+                out.append("u.%s %s %s" % (forms[k % len(forms)], hx(a), hx(b)))
+            elif r < 40:
+                a, b = pair(rng, tier)
+                out.append("ui.%s %s %s" % (PLAIN[k % 3], hx(a), hx(b if rng.chance(1, 2) else -b)))
+            elif r < 46:
+                a, b = pair(rng, tier)
+                out.append("iu.%s %s %s" % (PLAIN[k % 3], hx(a if rng.chance(1, 2) else -a), hx(b)))
+            elif r < 62:
+                a, b = const_pair(rng, tier)
+                out.append("uc.%s %s %s" % (PLAIN[k % 3], hx(a), hx(b)))
+            elif r < 74:
+                a, b = const_pair(rng, tier)
+                out.append("ic.%s %s %s" % (PLAIN[k % 3], hx(a if rng.chance(1, 2) else -a), hx(b)))
+            elif r < 78:
+                out.append("c.%s %s" % (rng.choice(["value", "fields", "fields"]), hx(divisor(rng, rng.choice([0, 1, 1, 2, 2, 3, 5, 33])))))
+            elif r < 81:
+                a = gen_mag(rng, rng.choice([0, 1, 2, 3, 5, 40]), W)
+                out.append(rng.choice(["i.%s %s 0" % (rng.choice(SAME_FORMS), hx(-a)), "u.%s %s 0" % (rng.choice(SAME_FORMS), hx(a)),
+                                       "ui.%s %s 0" % (rng.choice(PLAIN), hx(a)), "iu.%s %s 0" % (rng.choice(PLAIN), hx(-a)),
+                                       "%s.%s %s 0" % (rng.choice(["uc", "ic"]), rng.choice(PLAIN), hx(a))]))
+            elif r < 85:
+                a, b = pair(rng, tier, nb=rng.choice([1, 2]))
+                if rng.chance(1, 2):
+                    a = b * quotient(rng, rng.choice([1, 2, 3, 5]))
+                out.append("mc.u %s %s" % (hx(a), hx(b)) if rng.chance(1, 2) else "mc.i %s %s" % (hx(-a), hx(b)))
+            elif r < 88:
+                out.append(mem_case(rng, "quick"))
+            elif r < 96 or wbits != 64:
+                out.append(kernel_case(rng, tier))
+            else:
+                form = rng.choice(PLAIN + ["pdiv"])
+                big = gen_mag(rng, rng.choice([0, 1, 2, 3, 4, 33]), W)
+                ty, bits = rng.choice(PRIMS_U)
+                out.append("up.%s %s %s %s" % (form, ty, hx(big), hx(prim_value(rng, bits, False))))
+        return out[:max(n, 0)] if wbits != 64 else out
+    finally:
+        W, B = saved
